@@ -388,7 +388,7 @@ def run():
     for c, (dg, fails, stats, guarded) in zip(cases, res):
         cc.append((c, dg))
         nguard += guarded
-        for kind, inp, obs, exp in fails:
+        for kind, inp, obs, exp in ec.shrink_failures(ck, c, fails, lambda c: _work(c)[1]):
             ck.fail(kind, inp, obs, exp)
         for key, v in stats.items():
             ck.count(key, v)
